@@ -1,4 +1,5 @@
 import Mkts.Lemmas.Ticks
+import Mkts.Lemmas.Rne
 /-!
 # C10 — Sub-interval timestamp encoding is monotone and precise
 
@@ -157,6 +158,33 @@ theorem C10_roundtrip_mono (R : Rnd) (start ipd tfs d1 d2 : ℤ) (h1 : 1 ≤ ipd
   obtain ⟨_, _, _, _, hk21, _⟩ := encode_core R ipd tfs d2 h1 hday (by omega) hd2
   exact C10_decode_mono R start ipd _ _ h1 hs0 hs1 hk10
     (C10_encode_mono R ipd tfs d1 d2 h1 hday hd0 h12 hd2) hk21
+
+/-! ## the theorems at the operator the code runs: `rne` (IEEE binary64 round-to-nearest-even),
+    proved to be an `Rnd` in `Lemmas/Rne.lean` (`rneRnd`) -/
+
+/-- C10 for the repaired decoder with the executable IEEE operator -/
+theorem C10_fixed_rne (start ipd tfs d : ℤ) (h1 : 1 ≤ ipd) (hday : ipd * tfs = 86400)
+    (hs0 : 0 ≤ start) (hs1 : start + 86403 < 18446744073709551616)
+    (hd0 : 0 ≤ d) (hd1 : d < tfs * 1000000000) :
+    Precise start tfs d (getTimeFromTicksFixed rne start ipd (encode rne ipd d)) :=
+  C10_fixed rneRnd start ipd tfs d h1 hday hs0 hs1 hd0 hd1
+
+/-- the repaired decoder with `rne` is monotone in the ticks -/
+theorem C10_decode_mono_rne (start ipd k1 k2 : ℤ) (h1 : 1 ≤ ipd) (hs0 : 0 ≤ start)
+    (hs1 : start + 86402 < 18446744073709551616) (h0 : 0 ≤ k1) (hk : k1 ≤ k2) (h2 : k2 < 4294967296) :
+    (getTimeFromTicksFixed rne start ipd k1).sec * 1000000000 + (getTimeFromTicksFixed rne start ipd k1).nanos ≤
+    (getTimeFromTicksFixed rne start ipd k2).sec * 1000000000 + (getTimeFromTicksFixed rne start ipd k2).nanos :=
+  C10_decode_mono rneRnd start ipd k1 k2 h1 hs0 hs1 h0 hk h2
+
+/-- write then read with `rne` preserves the order of timestamps inside an interval -/
+theorem C10_roundtrip_mono_rne (start ipd tfs d1 d2 : ℤ) (h1 : 1 ≤ ipd) (hday : ipd * tfs = 86400)
+    (hs0 : 0 ≤ start) (hs1 : start + 86402 < 18446744073709551616)
+    (hd0 : 0 ≤ d1) (h12 : d1 ≤ d2) (hd2 : d2 < tfs * 1000000000) :
+    (getTimeFromTicksFixed rne start ipd (encode rne ipd d1)).sec * 1000000000 +
+      (getTimeFromTicksFixed rne start ipd (encode rne ipd d1)).nanos ≤
+    (getTimeFromTicksFixed rne start ipd (encode rne ipd d2)).sec * 1000000000 +
+      (getTimeFromTicksFixed rne start ipd (encode rne ipd d2)).nanos :=
+  C10_roundtrip_mono rneRnd start ipd tfs d1 d2 h1 hday hs0 hs1 hd0 h12 hd2
 
 /-! ## the decoder as written -/
 
